@@ -12,14 +12,198 @@ import (
 
 // Rules added after the first round of independently written seeded changes (DESIGN 10.5).
 
-// reconciler returns the function that builds postings.
+// reconciler returns the function that pairs the pending senders and receivers into postings:
+// it returns a list of postings, works on the two pending lists (takes them, or reads a
+// sender's and a receiver's amount itself) and builds the postings - itself or through a
+// helper of its package. When several functions qualify (the loop was split), the outermost.
 func (c *Ctx) reconciler(r *Roles) *ssa.Function {
+	if c.reconcilerDone {
+		return c.reconcilerFn
+	}
+	c.reconcilerDone = true
+	var cands []*ssa.Function
 	for _, g := range c.P.ModuleFunctions() {
-		if relOfFn(g) == "internal/interpreter" && returnsPostings(g) && buildsPostings(g, r) {
-			return g
+		if relOfFn(g) != "internal/interpreter" || g.Parent() != nil || !returnsPostings(g) {
+			continue
+		}
+		if !(takesBothPending(g) || readsBothAmounts(g, r)) {
+			continue
+		}
+		if buildsPostings(g, r) || buildsPostingsThroughHelper(g, r, 2) {
+			cands = append(cands, g)
 		}
 	}
-	return nil
+	for _, g := range cands {
+		inner := false
+		for _, h := range cands {
+			if h != g && reachesWithin(h, g, 2) {
+				inner = true
+			}
+		}
+		if !inner {
+			c.reconcilerFn = g
+			break
+		}
+	}
+	return c.reconcilerFn
+}
+
+// IsReconciler: fn is the reconciler.
+func (c *Ctx) IsReconciler(fn *ssa.Function, r *Roles) bool {
+	return fn != nil && fn == c.reconciler(r)
+}
+
+func takesBothPending(g *ssa.Function) bool {
+	s, rc := false, false
+	for _, p := range g.Params {
+		t := p.Type()
+		if pt, ok := t.Underlying().(*types.Pointer); ok {
+			t = pt.Elem()
+		}
+		switch elemTypeName(t) {
+		case "Sender":
+			s = true
+		case "Receiver":
+			rc = true
+		}
+	}
+	return s && rc
+}
+
+func readsBothAmounts(g *ssa.Function, r *Roles) bool {
+	s, rc := false, false
+	for _, b := range g.Blocks {
+		for _, in := range b.Instrs {
+			var f *types.Var
+			switch x := in.(type) {
+			case *ssa.FieldAddr:
+				f = core.FieldOf(x)
+			case *ssa.Field:
+				f = core.FieldOf(x)
+			}
+			if f == r.SenderAmt {
+				s = true
+			}
+			if f == r.ReceiverAmt {
+				rc = true
+			}
+		}
+	}
+	return s && rc
+}
+
+// buildsPostingsThroughHelper: g hands its postings to (or receives them from) a helper of its
+// package that builds them.
+func buildsPostingsThroughHelper(g *ssa.Function, r *Roles, depth int) bool {
+	if depth <= 0 {
+		return false
+	}
+	for _, ci := range core.Calls(g) {
+		sc := ci.Common().StaticCallee()
+		if sc == nil || sc == g || len(sc.Blocks) == 0 || relOfFn(sc) != relOfFn(g) || !handlesPostings(sc) {
+			continue
+		}
+		if buildsPostings(sc, r) || buildsPostingsThroughHelper(sc, r, depth-1) {
+			return true
+		}
+	}
+	return false
+}
+
+// handlesPostings: fn returns postings or takes (a pointer to) a list of them.
+func handlesPostings(fn *ssa.Function) bool {
+	if returnsPostings(fn) {
+		return true
+	}
+	for _, p := range fn.Params {
+		t := p.Type()
+		if pt, ok := t.Underlying().(*types.Pointer); ok {
+			t = pt.Elem()
+		}
+		if elemTypeName(t) == "Posting" {
+			return true
+		}
+	}
+	return false
+}
+
+// postingBuilders: the helpers of the reconciler that build or merge postings for it.
+func (c *Ctx) postingBuilders(r *Roles) []*ssa.Function {
+	fn := c.reconciler(r)
+	if fn == nil {
+		return nil
+	}
+	var out []*ssa.Function
+	seen := map[*ssa.Function]bool{fn: true}
+	work := []*ssa.Function{fn}
+	for i := 0; i < len(work) && len(work) < 8; i++ {
+		for _, ci := range core.Calls(work[i]) {
+			sc := ci.Common().StaticCallee()
+			if sc == nil || seen[sc] || len(sc.Blocks) == 0 || relOfFn(sc) != relOfFn(fn) || !handlesPostings(sc) {
+				continue
+			}
+			seen[sc] = true
+			work = append(work, sc)
+			out = append(out, sc)
+		}
+	}
+	return out
+}
+
+// ArgSite: one static call of a helper, with the argument passed for one of its parameters.
+type ArgSite struct {
+	Arg    ssa.Value
+	Site   ssa.CallInstruction
+	Caller *ssa.Function
+}
+
+// argSites: every call of fn in the module with the argument for p; ok is false when fn is
+// also used as a value (its callers are then not all known) or is never called.
+func (c *Ctx) argSites(fn *ssa.Function, p *ssa.Parameter) ([]ArgSite, bool) {
+	idx := paramIndex(fn, p)
+	if idx < 0 {
+		return nil, false
+	}
+	if c.fnValues == nil {
+		c.fnValues = map[*ssa.Function]bool{}
+		for _, g := range c.P.ModuleFunctions() {
+			for _, b := range g.Blocks {
+				for _, in := range b.Instrs {
+					if _, dbg := in.(*ssa.DebugRef); dbg {
+						continue
+					}
+					ci, isCall := in.(ssa.CallInstruction)
+					for oi, op := range in.Operands(nil) {
+						f, ok := (*op).(*ssa.Function)
+						if !ok {
+							continue
+						}
+						if isCall && oi == 0 && ci.Common().Value == ssa.Value(f) {
+							continue
+						}
+						c.fnValues[f] = true
+					}
+				}
+			}
+		}
+	}
+	if c.fnValues[fn] {
+		return nil, false
+	}
+	var out []ArgSite
+	for _, g := range c.P.ModuleFunctions() {
+		for _, ci := range core.Calls(g) {
+			if ci.Common().StaticCallee() != fn {
+				continue
+			}
+			args := core.CallArgs(ci.Common())
+			if ci.Common().IsInvoke() || idx >= len(args) {
+				return nil, false
+			}
+			out = append(out, ArgSite{Arg: args[idx], Site: ci, Caller: g})
+		}
+	}
+	return out, len(out) > 0
 }
 
 // reconcilerRegion: the reconciler and the helpers of its package it hands the pending lists
@@ -811,9 +995,246 @@ func (c *Ctx) SaveRestoreClosures(ob *core.Obligation) {
 			}
 		}
 	}
+	n += c.snapshotPairsChecked(ob, "internal/analysis", "CheckResult")
 	if n == 0 {
 		ob.Pass("save-restore:none", "-", "no save/restore helper in the checker")
 	}
+}
+
+// snapshotPair: the save/restore idiom without closures - an "enter" helper that returns a
+// snapshot struct of fields of the state, and an "exit" helper that is handed the snapshot and
+// stores its fields back.
+type snapshotPair struct {
+	Enter, Exit *ssa.Function
+	// per restored state field: the store in Exit, and the snapshot field it is taken from
+	Stores map[*types.Var]*ssa.Store
+	From   map[*types.Var]*types.Var
+}
+
+func (c *Ctx) snapshotPairs(rel, stateType string) []snapshotPair {
+	var out []snapshotPair
+	var fns []*ssa.Function
+	for _, fn := range c.P.ModuleFunctions() {
+		if relOfFn(fn) == rel && fn.Parent() == nil && len(fn.Blocks) > 0 {
+			fns = append(fns, fn)
+		}
+	}
+	snapFieldOf := func(v ssa.Value, x *ssa.Function) (*ssa.Parameter, *types.Var) {
+		switch y := v.(type) {
+		case *ssa.Field:
+			if p, ok := y.X.(*ssa.Parameter); ok && p.Parent() == x {
+				return p, core.FieldOf(y)
+			}
+			if ld, ok := y.X.(*ssa.UnOp); ok {
+				if al, ok := ld.X.(*ssa.Alloc); ok {
+					if st := onlyStore(al); st != nil {
+						if p, ok := st.Val.(*ssa.Parameter); ok {
+							return p, core.FieldOf(y)
+						}
+					}
+				}
+			}
+		case *ssa.UnOp:
+			if fa, ok := y.X.(*ssa.FieldAddr); ok {
+				if al, ok := fa.X.(*ssa.Alloc); ok {
+					if st := onlyStore(al); st != nil {
+						if p, ok := st.Val.(*ssa.Parameter); ok {
+							return p, core.FieldOf(fa)
+						}
+					}
+				}
+				if p, ok := fa.X.(*ssa.Parameter); ok && p.Parent() == x {
+					return p, core.FieldOf(fa) // snapshot handed over by pointer
+				}
+			}
+		}
+		return nil, nil
+	}
+	for _, x := range fns {
+		if x.Signature.Results().Len() != 0 {
+			continue
+		}
+		pair := snapshotPair{Exit: x, Stores: map[*types.Var]*ssa.Store{}, From: map[*types.Var]*types.Var{}}
+		var snap *ssa.Parameter
+		ok := true
+		for _, b := range x.Blocks {
+			for _, in := range b.Instrs {
+				st, isSt := in.(*ssa.Store)
+				if !isSt {
+					continue
+				}
+				f := core.FieldOf(st.Addr)
+				if f == nil || ownerOfVar(f) != stateType {
+					continue
+				}
+				p, g := snapFieldOf(st.Val, x)
+				if p == nil || g == nil || (snap != nil && snap != p) || pair.Stores[f] != nil {
+					ok = false
+					continue
+				}
+				snap = p
+				pair.Stores[f] = st
+				pair.From[f] = g
+			}
+		}
+		if !ok || snap == nil {
+			continue
+		}
+		st := snap.Type()
+		if pt, isPtr := st.Underlying().(*types.Pointer); isPtr {
+			st = pt.Elem()
+		}
+		if _, isStruct := st.Underlying().(*types.Struct); !isStruct {
+			continue
+		}
+		for _, e := range fns {
+			if e == x || e.Signature.Results().Len() != 1 {
+				continue
+			}
+			rt := e.Signature.Results().At(0).Type()
+			if pt, isPtr := rt.Underlying().(*types.Pointer); isPtr {
+				rt = pt.Elem()
+			}
+			if !types.Identical(rt, st) {
+				continue
+			}
+			pe := pair
+			pe.Enter = e
+			out = append(out, pe)
+		}
+	}
+	return out
+}
+
+// snapshotTakenOnEntry: every return of the enter helper hands back a snapshot whose field g
+// holds the value the state field f had before the helper wrote to it.
+func snapshotTakenOnEntry(e *ssa.Function, f, g *types.Var) bool {
+	rets := core.Returns(e)
+	if len(rets) == 0 {
+		return false
+	}
+	for _, ret := range rets {
+		if len(ret.Results) != 1 {
+			return false
+		}
+		var al *ssa.Alloc
+		switch y := ret.Results[0].(type) {
+		case *ssa.UnOp:
+			al, _ = y.X.(*ssa.Alloc)
+		case *ssa.Alloc:
+			al = y
+		}
+		if al == nil || al.Referrers() == nil {
+			return false
+		}
+		var fst *ssa.Store
+		nst := 0
+		for _, r := range *al.Referrers() {
+			switch z := r.(type) {
+			case *ssa.FieldAddr:
+				if core.FieldOf(z) != g || z.Referrers() == nil {
+					continue
+				}
+				for _, r2 := range *z.Referrers() {
+					if s2, ok := r2.(*ssa.Store); ok && s2.Addr == ssa.Value(z) {
+						fst = s2
+						nst++
+					}
+				}
+			case *ssa.Store:
+				if z.Addr == ssa.Value(al) {
+					return false // the whole snapshot is overwritten
+				}
+			}
+		}
+		if nst != 1 {
+			return false
+		}
+		ld, ok := fst.Val.(*ssa.UnOp)
+		if !ok || core.FieldOf(ld.X) != f || fieldStoredBefore(e, f, ld) {
+			return false
+		}
+	}
+	return true
+}
+
+// snapshotPairsChecked (R9, second form): the exit helper puts back, for every field it
+// writes, the value the enter helper read before its own write; and every scope that is
+// entered is left - on every path from a call of the enter helper to a return of its caller
+// the exit helper is called with that snapshot.
+func (c *Ctx) snapshotPairsChecked(ob *core.Obligation, rel, stateType string) int {
+	n := 0
+	for _, pr := range c.snapshotPairs(rel, stateType) {
+		c.Touch(pr.Enter)
+		c.Touch(pr.Exit)
+		for f, st := range pr.Stores {
+			n++
+			key := "save-restore:" + core.SSAName(pr.Exit) + ":" + f.Name()
+			if snapshotTakenOnEntry(pr.Enter, f, pr.From[f]) {
+				ob.Pass(key, c.P.Pos(st.Pos()), "the exit helper puts back the value "+pr.Enter.Name()+" read on entry")
+			} else {
+				ob.Fail(key, c.P.Pos(st.Pos()), "the exit helper does not restore the value "+f.Name()+" had when the scope was entered: nested scopes leak their setting into the enclosing one")
+			}
+		}
+		for _, g := range c.P.ModuleFunctions() {
+			if relOfFn(g) != rel {
+				continue
+			}
+			for _, ci := range core.Calls(g) {
+				ec, ok := ci.(*ssa.Call)
+				if !ok || ec.Call.StaticCallee() != pr.Enter {
+					continue
+				}
+				n++
+				c.Touch(g)
+				key := "save-restore:" + core.SSAName(g) + ":left"
+				exits := map[*ssa.BasicBlock]bool{}
+				sameBlockAfter := false
+				for _, c2 := range core.Calls(g) {
+					if c2.Common().StaticCallee() != pr.Exit {
+						continue
+					}
+					handed := false
+					for _, a := range c2.Common().Args {
+						if resolveLocal(a) == ssa.Value(ec) {
+							handed = true
+						}
+					}
+					if !handed {
+						continue
+					}
+					if c2.Block() == ec.Block() {
+						for _, in := range ec.Block().Instrs {
+							if in == ssa.Instruction(ec) {
+								sameBlockAfter = true
+								break
+							}
+							if in == c2.(ssa.Instruction) {
+								break
+							}
+						}
+					} else {
+						exits[c2.Block()] = true
+					}
+				}
+				left := sameBlockAfter
+				if !left && len(exits) > 0 {
+					left = true
+					for _, ret := range core.Returns(g) {
+						if core.ReachableAvoiding(ec.Block(), ret.Block(), exits) {
+							left = false
+						}
+					}
+				}
+				if left {
+					ob.Pass(key, c.P.Pos(ec.Pos()), "the scope entered here is left on every path to a return")
+				} else {
+					ob.Fail(key, c.P.Pos(ec.Pos()), "a scope is entered with "+pr.Enter.Name()+" but not left with "+pr.Exit.Name()+" on every path: its setting leaks into what is checked afterwards")
+				}
+			}
+		}
+	}
+	return n
 }
 
 func (c *Ctx) restoresEntryValue(v ssa.Value, closure, parent *ssa.Function, f *types.Var) bool {
@@ -982,8 +1403,9 @@ func (c *Ctx) OriginBeforeDeclaration(ob *core.Obligation) {
 		}
 		for _, d := range declCalls {
 			for _, o := range originCalls {
-				// both in the body of the same loop over the declarations ...
-				if lh := loopOf(d.Block()); lh == nil || lh != loopOf(o.Block()) {
+				// both in the body of the same loop over the declarations (or both outside any loop:
+				// a helper that handles one declaration) ...
+				if lh := loopOf(d.Block()); lh != loopOf(o.Block()) {
 					bad = true
 					continue
 				}
